@@ -1,12 +1,159 @@
 import CogentModel.Model.PairHMM
 import CogentModel.Spec.PairHMM
 import CogentModel.Model.GapMerge
-/-! # C18 — property theorems (placeholder while the package is being built) -/
-namespace CogentModel.C18
-open CogentModel.GapMerge
+import CogentModel.Proofs.PairHMMMain
+import CogentModel.Proofs.PairHMMLocal
+import CogentModel.Proofs.GapMerge
+/-! # C18 — property theorems: aligners preserve their inputs and are optimal for their own model
 
-/-- the witness: ref CTAA with (C-TAA-,ACTCTC), (CTAA-,-TCCA), (CTAA,--CA) -/
+`S` is any score type with `+` and a strict total order respected by `+` (`ScoreLaws`; instances `Int`, `Rat`);
+`Option S` adds `-inf`.  `h : HMM S` is an arbitrary pair HMM (any number of states with any `(dx, dy)` directions,
+any log transition matrix incl. BEGIN/END rows, any emission scores) without silent states, as `adapt_pair_tm`
+guarantees.  `n`, `m` are arbitrary sequence lengths. -/
+namespace CogentModel.C18
+open CogentModel.PairHMM CogentModel.GapMerge
+
+variable {S : Type} [Add S] [LT S] [DecidableLT S] [ScoreLaws S]
+
+/-- **No other path scores higher, and the optimum is attained.**  The value the Viterbi kernel model reports for a
+global alignment is `≥` the spec score of *every* state path that emits exactly the two sequences, and (when finite)
+it *is* the score of one of them.  (Bellman induction over all `(i, j)`; no bound on lengths or states.) -/
+theorem viterbi_optimal (h : HMM S) (hns : NoSilent h) (n m : Nat) :
+    (∀ p, IsGlobalPath h n m p → ele (globalScore h p) (viterbiGlobal h n m).score) ∧
+    (∀ v, (viterbiGlobal h n m).score = some v → ∃ p, IsGlobalPath h n m p ∧ globalScore h p = some v) :=
+  ⟨fun p hp => global_upper h n m p hp,
+   fun v hv => let ⟨p, _, hp, hs⟩ := global_attained h hns n m v hv; ⟨p, hp, hs⟩⟩
+
+/-- the maximum is unique as a value: any path that is as good as all others has exactly the reported score -/
+theorem viterbi_value_unique (h : HMM S) (hns : NoSilent h) (n m : Nat) (p : List Nat) (hp : IsGlobalPath h n m p)
+    (hbest : ∀ q, IsGlobalPath h n m q → ele (globalScore h q) (globalScore h p)) :
+    globalScore h p = (viterbiGlobal h n m).score := by
+  apply ele_antisymm (global_upper h n m p hp)
+  cases hv : (viterbiGlobal h n m).score with
+  | none => exact ele_none _
+  | some v =>
+    obtain ⟨q, _, hq, hs⟩ := global_attained h hns n m v hv
+    rw [← hs]; exact hbest q hq
+
+/-- **The traceback returns a genuine path**: whenever the reported score is finite the pointer walk succeeds and
+yields the `(state, i, j)` annotation of a state path that starts at `(0, 0)` and emits exactly `n` and `m` residues. -/
+theorem traceback_path_valid (h : HMM S) (hns : NoSilent h) (n m : Nat) (v : S)
+    (hv : (viterbiGlobal h n m).score = some v) :
+    ∃ p, (viterbiGlobal h n m).path = some (annotate h 0 0 p) ∧ IsGlobalPath h n m p :=
+  let ⟨p, hpath, hp, _⟩ := global_attained h hns n m v hv; ⟨p, hpath, hp⟩
+
+/-- **Reported score = independently recomputed score of the returned path** (the spec's `globalScore` knows
+nothing about the DP). -/
+theorem traceback_score (h : HMM S) (hns : NoSilent h) (n m : Nat) (v : S)
+    (hv : (viterbiGlobal h n m).score = some v) :
+    ∃ p, (viterbiGlobal h n m).path = some (annotate h 0 0 p) ∧ globalScore h p = (viterbiGlobal h n m).score :=
+  let ⟨p, hpath, _, hs⟩ := global_attained h hns n m v hv; ⟨p, hpath, by rw [hs, hv]⟩
+
+/-- **Local alignment: no other local path scores higher, and the optimum is attained.**  Local paths are all state
+paths over *any contiguous sub-pair* `s1[i0:i1]`, `s2[j0:j1]` that start and end in a match state (the kernel's restart and
+best-cell rules); their score has the BEGIN transition and no END transition. -/
+theorem viterbi_optimal_local (h : HMM S) (hns : NoSilent h) (n m : Nat) :
+    (∀ i0 j0 p, IsLocalPath h n m i0 j0 p → ele (prefixScore h i0 j0 p) (viterbiLocal h n m).score) ∧
+    (∀ v, (viterbiLocal h n m).score = some v →
+      ∃ p i0 j0, IsLocalPath h n m i0 j0 p ∧ prefixScore h i0 j0 p = some v) :=
+  ⟨fun i0 j0 p hp => local_upper h n m i0 j0 p hp,
+   fun v hv => let ⟨p, i0, j0, _, hp, hs⟩ := local_attained h hns n m v hv; ⟨p, i0, j0, hp, hs⟩⟩
+
+/-- **Local traceback**: the returned path is a local path of the inputs, its independently recomputed score is the
+reported score, and its rows degap to the contiguous parts `s1[i0:i1]`, `s2[j0:j1]` it covers. -/
+theorem traceback_score_local (h : HMM S) (hns : NoSilent h) {α : Type} (s1 s2 : List α) (v : S)
+    (hv : (viterbiLocal h s1.length s2.length).score = some v) :
+    ∃ p i0 j0, (viterbiLocal h s1.length s2.length).path = some (annotate h i0 j0 p) ∧
+      IsLocalPath h s1.length s2.length i0 j0 p ∧
+      prefixScore h i0 j0 p = (viterbiLocal h s1.length s2.length).score ∧
+      (rowsOfPath h s1 s2 (annotate h i0 j0 p)).1.filterMap id = (s1.drop i0).take ((consumedFrom h i0 j0 p).1 - i0) ∧
+      (rowsOfPath h s1 s2 (annotate h i0 j0 p)).2.filterMap id = (s2.drop j0).take ((consumedFrom h i0 j0 p).2 - j0) := by
+  obtain ⟨p, i0, j0, hpath, hp, hs⟩ := local_attained h hns s1.length s2.length v hv
+  have hd := rows_degap h s1 s2 p i0 j0 hp.2.2.2.2.1 hp.2.2.2.2.2
+  exact ⟨p, i0, j0, hpath, hp, by rw [hs, hv], hd.1, hd.2⟩
+
+/-- **Rows degap to the inputs**: the gapped rows built from the returned path contain, in order, exactly the
+residues of the two input sequences (any alphabet `α`). -/
+theorem rows_degap_to_inputs (h : HMM S) (hns : NoSilent h) {α : Type} (s1 s2 : List α) (v : S)
+    (hv : (viterbiGlobal h s1.length s2.length).score = some v) :
+    ∃ steps, (viterbiGlobal h s1.length s2.length).path = some steps ∧
+      (rowsOfPath h s1 s2 steps).1.filterMap id = s1 ∧ (rowsOfPath h s1 s2 steps).2.filterMap id = s2 := by
+  obtain ⟨p, hpath, hp, _⟩ := global_attained h hns s1.length s2.length v hv
+  have hd := rows_degap h s1 s2 p 0 0 (by rw [hp.2]; exact Nat.le_refl _) (by rw [hp.2]; exact Nat.le_refl _)
+  rw [hp.2] at hd
+  exact ⟨_, hpath, by simpa using hd.1, by simpa using hd.2⟩
+
+/-- for a path anywhere inside the sequences (local alignment): the rows degap to the contiguous parts
+`s1[i0:i1]`, `s2[j0:j1]` the path covers -/
+theorem rows_degap_to_contiguous_part (h : HMM S) {α : Type} (s1 s2 : List α) (p : List Nat) (i0 j0 : Nat)
+    (h1 : (consumedFrom h i0 j0 p).1 ≤ s1.length) (h2 : (consumedFrom h i0 j0 p).2 ≤ s2.length) :
+    (rowsOfPath h s1 s2 (annotate h i0 j0 p)).1.filterMap id = (s1.drop i0).take ((consumedFrom h i0 j0 p).1 - i0) ∧
+    (rowsOfPath h s1 s2 (annotate h i0 j0 p)).2.filterMap id = (s2.drop j0).take ((consumedFrom h i0 j0 p).2 - j0) :=
+  rows_degap h s1 s2 p i0 j0 h1 h2
+
+/-- **Rows have equal length** (one column per step of the path), for every path whatsoever. -/
+theorem rows_equal_length (h : HMM S) {α : Type} (s1 s2 : List α) (steps : List (Nat × Nat × Nat)) :
+    (rowsOfPath h s1 s2 steps).1.length = (rowsOfPath h s1 s2 steps).2.length := by
+  rw [(rows_len h s1 s2 steps).1, (rows_len h s1 s2 steps).2]
+
+/-- **Merging keeps the pairwise alignment — partial**: for a single well-formed pairwise alignment (any gap
+layout, any lengths) `pairwise_to_multiple` returns rows whose common-gap-free projection is that alignment;
+holds for the pinned and for the repaired `_gaps_for_injection`. -/
+theorem merge_keeps_pairwise_partial (fixed : Bool) (reflen : Int) (rg og : Gaps) (len : Int)
+    (hv : pairValid reflen (rg, og, len) = true) : keepsAll fixed reflen [(rg, og, len)] = true :=
+  keepsAll_single fixed reflen rg og len hv
+
+/-- **…and fails for the code as written** on three well-formed pairwise alignments: reference `CTAA` with
+`(C-TAA-, ACTCTC)`, `(CTAA-, -TCCA)`, `(CTAA, --CA)` (gap dicts below); the model of the pinned code does not keep
+the third pairwise alignment. -/
 theorem merge_keeps_pairwise_counter :
-    keepsAll false 4 [([(1,1),(4,1)], [], 6), ([(4,1)], [(0,1)], 4), ([], [(0,2)], 2)] = false := by decide
+    let pw : List (Gaps × Gaps × Int) := [([(1,1),(4,1)], [], 6), ([(4,1)], [(0,1)], 4), ([], [(0,2)], 2)]
+    (pw.all (pairValid 4)) = true ∧ keepsAll false 4 pw = false := by decide
+
+/- FULL STATEMENT (not proved): merge_keeps_pairwise
+     ∀ reflen pw, (pw.all (pairValid reflen)) = true → keepsAll false reflen pw = true
+   is FALSE for the pinned code (`merge_keeps_pairwise_counter`; finding C18-p2m-injected-gap-inside-other-gap).
+   For the repaired variant (`fixed = true`, fixes/C18-p2m-gap-injection.patch) the statement
+     ∀ reflen pw, (pw.all (pairValid reflen)) = true → keepsAll true reflen pw = true
+   is expected to hold (no counterexample in the seeded search, see the harness) but is not proved here: it
+   needs a refinement proof of the dict/bisect arithmetic of `_GapOffset` against the row semantics. -/
+
+/- FULL STATEMENT (not proved): hirschberg_eq_full
+     for every split row `r`: max over (j, state) of forward(r, j, state) + backward(r, j, state) equals
+     (viterbiGlobal h n m).score, and the concatenation of the two half tracebacks pinned to the anchor state is
+     an optimal global path.
+   Not modelled in Lean.  The real code violates the second half (finding
+   C18-hirschberg-first-half-not-pinned-to-anchor-state); both code paths are compared on the same inputs by the
+   harness (`HIRSCHBERG_LIMIT` toggle) against the proved optimum. -/
+
+/-! ## non-vacuity: a concrete 3-state affine-gap HMM over `Int` (X = 1, Y = 2, M = 3) -/
+
+def exHMM : HMM Int where
+  dirs := [(true, false), (false, true), (true, true)]
+  T := fun a b =>
+    if b = 0 ∨ a = 4 then none
+    else if a = 1 ∧ b = 2 then none else if a = 2 ∧ b = 1 then none     -- no X<->Y
+    else if b = 4 then some 0
+    else if b = 3 then some 0 else if a = b then some (-1) else some (-3)
+  em := fun s i j => if s = 3 then (if (i + j) % 2 = 0 then some 2 else some (-1)) else some 0
+
+def exHMM_noSilent : NoSilent exHMM := by
+  intro s h1 h2
+  have h2' : s ≤ 3 := h2
+  have : s = 1 ∨ s = 2 ∨ s = 3 := by omega
+  rcases this with rfl | rfl | rfl <;> rfl
+
+example : (viterbiGlobal exHMM 3 2).score = some 1 := by decide
+example : (viterbiGlobal exHMM 3 2).path = some [(3, 1, 1), (3, 2, 2), (1, 3, 2)] := by decide
+example : IsGlobalPath exHMM 3 2 [3, 3, 1] ∧ globalScore exHMM [3, 3, 1] = some 1 := by
+  refine ⟨⟨?_, by decide⟩, by decide⟩
+  intro s hs
+  have : s = 3 ∨ s = 1 := by simpa using hs
+  rcases this with rfl | rfl <;> exact ⟨by decide, by decide, by decide⟩
+example : rowsOfPath exHMM "ACG".toList "AC".toList [(3, 1, 1), (3, 2, 2), (1, 3, 2)] =
+    ([some 'A', some 'C', some 'G'], [some 'A', some 'C', none]) := by decide
+example : (viterbiLocal exHMM 3 2).score = some 4 ∧ (viterbiLocal exHMM 3 2).path = some [(3, 1, 1), (3, 2, 2)] := by decide
+example : pairValid 4 ([(1,1),(4,1)], [], 6) = true := by decide
+example : keepsAll true 4 [([(1,1),(4,1)], [], 6), ([(4,1)], [(0,1)], 4), ([], [(0,2)], 2)] = true := by decide
 
 end CogentModel.C18
